@@ -7,7 +7,8 @@ def setup(register, COMMON_TB):
         extra=[dict(pkg="./internal/mode/static/state/graph/", test="TestVerifC02Hosts"),
                dict(pkg="./internal/mode/static/", test="TestVerifNjs"),
                dict(pkg="./internal/mode/static/nginx/config/", test="TestVerifC02Rewrite"),
-               dict(pkg="./internal/mode/static/", test="TestVerifC02Pass")],
+               dict(pkg="./internal/mode/static/", test="TestVerifC02Pass"),
+               dict(pkg="./internal/mode/static/nginx/config/", test="TestVerifC02RewriteLoc")],
         rule="generated cluster states (gateway classes own/foreign, 1-2 gateways, HTTP/HTTPS listeners with hostnames, allowedRoutes, "
              "certificate refs, HTTPRoutes/GRPCRoutes with matches, filters, weighted backends, services, secrets, grants, namespaces), each "
              "run through the real handler/graph/configuration/generator; 40 (quick) or 100 (thorough) requests per state over the mentioned "
@@ -15,7 +16,7 @@ def setup(register, COMMON_TB):
              "distinct = distinct cluster states"
              " Second part (TestVerifC02Hosts, evaluated by k8s/HostCheck.v): the real findAcceptedHostnames on every pair of a pool of 15 hostnames (exact names, "
              "wildcards of several depths, look-alikes) and on random lists: equal to Spec.accepted_hostnames, and on 15 probe hosts some returned name serves the host "
-             "exactly when the listener hostname and a route hostname admit it. Third part (TestVerifNjs, evaluated by ngx/NjsCheck.v): the REAL nginx/modules/src/httpmatches.js of the tree under test, unmodified, under node 20 with a mocked request object, on 3000 (quick) / 60000 (thorough) generated match tables and requests (well-formed and malformed matches, absent/unknown/empty keys, header names in other case, comma lists, repeated query keys): returned status or redirect path equal to the model njs_redirect of ngx/Eval.v that every routing oracle uses. Fourth part (TestVerifC02Rewrite, evaluated by C02/RewriteCheck.v): the real createMainRewriteForFilters (ReplacePrefixMatch) on 15 prefixes x 8 replacements; the directive text must equal the model's, the regular expression it wrote is compiled by Go's regexp and applied as NGINX's rewrite would to 11 request paths each (the prefix, with slash, with further elements, look-alikes, unrelated): result = the model's apply, and every path that reaches the rule is rewritten to what Gateway API prescribes. Fifth part (TestVerifC02Pass, evaluated by C02/PassCheck.v): TLS passthrough - a Gateway with 1-4 TLS passthrough listeners on two ports (no / exact / wildcard hostnames of two depths) and sometimes an HTTPS listener on one of them, 1-4 TLSRoutes (0-2 hostnames, parentRefs with and without sectionName, equal and different ages, backends usable / without endpoints / missing) through the real pipeline; the generated stream.conf is evaluated for 2 ports x 10 SNIs (exact, nested, other case, unrelated) by the stream evaluator of C02/Pass.v and compared with the specification there (names of the port = accepted hostnames of attached TLSRoutes, HTTPS listener hostnames, TLS listener hostnames; most specific name wins, oldest Route among equals)",
+             "exactly when the listener hostname and a route hostname admit it. Third part (TestVerifNjs, evaluated by ngx/NjsCheck.v): the REAL nginx/modules/src/httpmatches.js of the tree under test, unmodified, under node 20 with a mocked request object, on 3000 (quick) / 60000 (thorough) generated match tables and requests (well-formed and malformed matches, absent/unknown/empty keys, header names in other case, comma lists, repeated query keys): returned status or redirect path equal to the model njs_redirect of ngx/Eval.v that every routing oracle uses. Fourth part (TestVerifC02Rewrite, evaluated by C02/RewriteCheck.v): the real createMainRewriteForFilters (ReplacePrefixMatch) on 15 prefixes x 8 replacements; the directive text must equal the model's, the regular expression it wrote is compiled by Go's regexp and applied as NGINX's rewrite would to 11 request paths each (the prefix, with slash, with further elements, look-alikes, unrelated): result = the model's apply, and every path that reaches the rule is rewritten to what Gateway API prescribes. Fifth part (TestVerifC02Pass, evaluated by C02/PassCheck.v): TLS passthrough - a Gateway with 1-4 TLS passthrough listeners on two ports (no / exact / wildcard hostnames of two depths) and sometimes an HTTPS listener on one of them, 1-4 TLSRoutes (0-2 hostnames, parentRefs with and without sectionName, equal and different ages, backends usable / without endpoints / missing) through the real pipeline; the generated stream.conf is evaluated for 2 ports x 10 SNIs (exact, nested, other case, unrelated) by the stream evaluator of C02/Pass.v and compared with the specification there (names of the port = accepted hostnames of attached TLSRoutes, HTTPS listener hostnames, TLS listener hostnames; most specific name wins, oldest Route among equals). Sixth part (TestVerifC02RewriteLoc, evaluated by C02/RewriteLocCheck.v): the real updateLocation for URLRewrite and RequestRedirect filters (no path modifier, full, prefix over 7 prefixes x 5 replacements) on an external and an internal location: the rewrite directives and the use of the original request URI in proxy_pass / return equal the model of C02/RewriteLoc.v",
         trusted_base=COMMON_TB + [
             "ngx/Lexer.v + ngx/Eval.v: NGINX tokenizer, server_name/location selection, rewrite-phase and split_clients semantics written from the NGINX documentation (no NGINX binary in the sandbox)",
             "Njs part of ngx/Eval.v: transcription of httpmatches.js, compared with the real module under node 20 on every run (third part); the mock of the njs request object (harness/njs/run.mjs: headersIn case-insensitive with one value per name, args with arrays for repeated keys, querystring of node in place of njs's) is trusted",
